@@ -27,6 +27,8 @@ a listed flag by the driver, and an invalid output with no flag is reported as a
 import Apko.Model.Resolver
 import Apko.Generated.Resolver
 import Apko.Proofs.Lemmas.ResolverTop
+import Apko.Proofs.Lemmas.ResolverDriver
+import Apko.Proofs.Lemmas.ResolverFlags
 
 namespace Apko.C02
 open Apko Apko.Resolver
@@ -464,5 +466,27 @@ def flagFreeOk (ps : List Pkg) (w : List String) (n : Nat) : Bool :=
 
 set_option maxRecDepth 100000 in
 example : UniverseWF (cfgOf [exA, exB]) ∧ flagFreeOk [exA, exB] ["a"] 2 = true := by decide
+
+/-! ## what this means for the driver's verdicts
+
+The correspondence suite sends (universe, world, Go's answer) to the driver, which runs the model on a
+universe parsed by `readArchs` and classifies an invalid answer by `classOf` of the model's flags. -/
+
+/-- T `driver_universe_wf`: `UniverseWF` holds of every universe the driver resolves in -/
+theorem driver_cfg_wf {n : Nat} {rest rest' : List String} {archs : List (Text × Universe)}
+    {self : Text} {u : Universe} (h : Driver.Resolver.readArchs n rest = some (archs, rest'))
+    (hl : lookupT archs self = some u) : UniverseWF (Driver.Resolver.cfgOf u) :=
+  driver_universe_wf h hl
+
+/-- T `driver_invalid_listed`: whenever the model's own successful answer on a driver universe is invalid,
+the class the driver reports is one of the five listed findings, never `unlisted` — so an `unlisted`
+verdict of the suite can only mean that the Go code and the model disagree. -/
+theorem driver_invalid_listed {n : Nat} {rest rest' : List String} {archs : List (Text × Universe)}
+    {self : Text} {u : Universe} (h : Driver.Resolver.readArchs n rest = some (archs, rest'))
+    (hl : lookupT archs self = some u) (w : List Text) (dq0 : List Nat) (r : Resolution)
+    (hr : resolve (Driver.Resolver.cfgOf u) w dq0 = .ok r)
+    (hinv : validB u w r.install = false) : Driver.Resolver.classOf r.flags ≠ "unlisted" :=
+  classOf_listed (invalid_has_flag _ w dq0 r (driver_cfg_wf h hl) hr hinv)
+    (resolve_flags_known _ w dq0 r hr)
 
 end Apko.C02
